@@ -4,14 +4,18 @@
 # Kept seeds are copied to /verif/seeded/<id>-<n>/ with meta.json extended by what was run.
 set -u
 SCR=/tmp/seedverify
+SRC=${SRC:-/tmp/seed}      # where the sub-agents left out/<n>/
+OFFSET=${OFFSET:-0}        # added to <n> in the kept id (second round: SRC=/tmp/seed2 OFFSET=2)
+ONLY=${ONLY:-}             # optional: space separated property ids
 rm -rf $SCR; mkdir -p $SCR
 git -C /repo worktree prune
 git -C /repo worktree add -q --detach $SCR/wt HEAD || exit 1
 export CARGO_TARGET_DIR=$SCR/target CARGO_NET_OFFLINE=true
 cd $SCR/wt
 LOG=$SCR/log.txt; : > $LOG
-for d in /tmp/seed/C*/out/*/; do
-  id=$(echo $d | sed 's#/tmp/seed/\(C[0-9]*\)/out/\([0-9]*\)/#\1-\2#')
+for d in $SRC/C*/out/*/; do
+  pid=$(echo $d | sed "s#$SRC/\\(C[0-9]*\\)/out/.*#\\1#"); n=$(basename $d); id=$pid-$((n+OFFSET))
+  [ -n "$ONLY" ] && ! echo " $ONLY " | grep -q " $pid " && continue
   [ -f $d/patch.diff ] || continue
   git checkout -q -- . ; git clean -fdq tests
   res="$id"
@@ -43,5 +47,5 @@ PY
   fi
 done
 cd /; git -C /repo worktree remove --force $SCR/wt; rm -rf $SCR/target
-cp $LOG /verif/seeded/VERIFY_LOG.txt
+cat $LOG >> /verif/seeded/VERIFY_LOG.txt
 echo DONE >> $LOG
